@@ -127,6 +127,19 @@ def network_simplex(
             state[arc] = 0
 
     iterations = 0
+    if _verif.ENABLED:  # pragma: no cover
+        _verif.emit(
+            "ns_init",
+            n=n,
+            source=list(source),
+            target=list(target),
+            cap=list(cap),
+            cost=list(cost),
+            supplies=list(supplies),
+            flow=list(flow),
+            tree=sorted(tree_arcs),
+            pi=list(pi),
+        )
 
     while iterations < max_iter:
         iterations += 1
@@ -195,6 +208,8 @@ def network_simplex(
         # Degenerate pivot: flip state without changing flow
         if delta == 0 and leaving == entering:
             state[entering] = -state[entering]
+            if _verif.ENABLED:  # pragma: no cover
+                _verif.emit("ns_state", flow=list(flow), tree=sorted(tree_arcs), pi=list(pi))
             continue
 
         # Augment flow along cycle
@@ -236,6 +251,9 @@ def network_simplex(
             tree_arcs.discard(leaving)
             tree_arcs.add(entering)
             _rebuild_tree(root, tree_arcs, source, target, cost, parent, pred, depth, pi)
+
+        if _verif.ENABLED:  # pragma: no cover
+            _verif.emit("ns_state", flow=list(flow), tree=sorted(tree_arcs), pi=list(pi))
 
     for arc in range(m, total_arcs):
         if flow[arc] > 0:
